@@ -432,6 +432,45 @@ class Interp:
                 else:
                     t = z3.If(z3.ULT(a.t, b.t), mn, r)
             return Scalar(t, ty)
+        m = re.fullmatch(r"(?:core::num::<impl )?(u8|u16|u32|u64|i8|i16|i32|i64)>?::(rem_euclid|div_euclid|wrapping_rem|wrapping_div|wrapping_rem_euclid|wrapping_div_euclid|"
+                         r"abs|wrapping_abs|unsigned_abs|abs_diff|min|max|signum|is_negative|is_positive|count_ones|leading_zeros|trailing_zeros|swap_bytes|reverse_bits|"
+                         r"wrapping_shl|wrapping_shr|rotate_left|rotate_right|pow|wrapping_pow|checked_add|checked_sub|checked_mul|checked_div|checked_rem|"
+                         r"overflowing_add|overflowing_sub|overflowing_mul)", callee)
+        if m:
+            ty, op = m.group(1), m.group(2)
+            w, sg = INT_BITS[ty], signed(ty)
+            x = argv[0].t
+            y = argv[1].t if len(argv) > 1 and hasattr(argv[1], "t") else None
+            zero, MIN, M1 = z3.BitVecVal(0, w), z3.BitVecVal(1 << (w - 1), w), z3.BitVecVal(-1, w)
+            if op in ("rem_euclid", "div_euclid", "wrapping_rem", "wrapping_div", "wrapping_rem_euclid", "wrapping_div_euclid"):
+                # all of them panic on a zero divisor in every profile; the non-wrapping ones also on MIN / -1
+                bad = y == zero
+                if sg and not op.startswith("wrapping"):
+                    bad = z3.Or(bad, z3.And(x == MIN, y == M1))
+                self.loud_conds.append((f"{op}: zero divisor / overflow", bad))
+                if not sg:
+                    return Scalar(z3.UDiv(x, y) if "div" in op else z3.URem(x, y), ty)
+                q, r = x / y, z3.SRem(x, y)
+                if op in ("wrapping_div",):
+                    return Scalar(q, ty)            # MIN / -1 wraps to MIN, which is what bvsdiv gives
+                if op in ("wrapping_rem",):
+                    return Scalar(r, ty)
+                if "rem" in op:
+                    # r < 0 ? (rhs < 0 ? r - rhs : r + rhs) : r      (core::num::int_macros rem_euclid, wrapping arithmetic)
+                    return Scalar(z3.If(r < 0, z3.If(y < 0, r - y, r + y), r), ty)
+                return Scalar(z3.If(r < 0, z3.If(y > 0, q - 1, q + 1), q), ty)
+            if op in ("abs", "wrapping_abs", "unsigned_abs"):
+                if op == "abs" and self.ovf:
+                    self.loud_conds.append(("abs of MIN with overflow", x == MIN))
+                return Scalar(z3.If(x < 0, -x, x) if sg else x, ty if op != "unsigned_abs" else ty.replace("i", "u"))
+            if op in ("min", "max"):
+                lt = (x < y) if sg else z3.ULT(x, y)
+                return Scalar(z3.If(lt, x, y) if op == "min" else z3.If(lt, y, x), ty)
+            if op == "signum":
+                return Scalar(z3.If(x == zero, zero, z3.If(x < 0, M1, z3.BitVecVal(1, w))), ty)
+            if op in ("is_negative", "is_positive"):
+                return Scalar((x < 0) if op == "is_negative" else (x > 0), "bool")
+            raise Unsupported(f"std integer function {op} (recognised, no model)")
         m = re.fullmatch(r"(?:core::f(?:32|64)::<impl )?(f32|f64)>?::to_bits", callee)
         if m:
             a = argv[0]
